@@ -11,7 +11,7 @@ ID = 'C06'
 RULE = ('Hypothesis-generated netlists (fork chains, both port styles, open pins/outputs, state elements) x stimuli x options. Part wave: '
         'WaveSim plain configuration vs (1) c_reuse, (2) strip_forks with zero delay on every line read by a fork and uniform capacity, '
         '(3) WaveSimCuda incl. abuf, (3b) a simulator object already used with other stimuli vs a fresh one, (4) more allocated lanes with arbitrary data in the extra lanes, (5) lane permutation, (6) c_prop(sims=k), '
-        '(7) delay dataset selection modes 0 (global) and 1 (per lane), uniform and mixed lane by lane, vs simulating with that dataset alone (mode 2, pseudo-random picking, is not part of the statement and not exercised), (8) s_ppo_to_ppi of '
+        '(3c) both code paths capture the same from a waveform written straight into the output regions (timestamps in any order), (7) delay dataset selection modes 0 (global) and 1 (per lane), uniform and mixed lane by lane, vs simulating with that dataset alone (mode 2, pseudo-random picking, is not part of the statement and not exercised), (8) s_ppo_to_ppi of '
         'both classes; compared: s[3..8], s[10] at all outputs / state elements, exact equality. Part logic: LogicSim m=2/4/8 plain vs c_reuse, '
         'strip_forks, extra lanes, lane permutation on s[1]. non-trivial: circuit has a multi-output fork and >= 3 levels and the compared '
         'configurations really differ (c_len smaller with reuse / fewer ops when stripped); distinct by SHA-1 of the case.')
@@ -61,7 +61,7 @@ def prop_wave(case):
     if case['actrl']:
         actrl = np.array([list(case['actrl'][l % len(case['actrl'])]) for l in range(max(1, nlines))], dtype=np.int32)
 
-    def sim(klass=WaveSim, waves=None, sims=None, dl=None, ksims=None, seed=1, mode=None, per_lane=None, act=None, pre=None, **opts):
+    def sim(klass=WaveSim, waves=None, sims=None, dl=None, ksims=None, seed=1, mode=None, per_lane=None, act=None, pre=None, owave=None, **opts):
         waves = waves or case['waves']
         sims = sims or len(waves[0])
         s = klass(c, delays if dl is None else dl, sims=sims, c_caps=case['cap'], a_ctrl=act, **opts)
@@ -74,6 +74,12 @@ def prop_wave(case):
             s.c_prop(seed=seed); s.c_to_s()
         W.apply_inputs(s, b, nl, waves)
         s.c_prop(sims=ksims, seed=seed)
+        if owave is not None:          # a waveform written straight into the region of every captured line (timestamps in any order)
+            for row in rows:
+                loc = int(s.c_locs[s.ppo_offset + row]); cap = int(s.c_caps[s.ppo_offset + row])
+                ent = [np.float32(t / W.GRID) for t in owave][:cap - 1] + [W.TMAX]
+                for lane in range(sims):
+                    s.c[loc:loc + len(ent), lane] = ent
         if T is None: s.c_to_s()
         else: s.c_to_s(time=T)
         return s
@@ -101,23 +107,41 @@ def prop_wave(case):
         raise Violation(f'c_reuse on vs off: abuf {np.array(s1.abuf).tolist()} != {np.array(base.abuf).tolist()}')
     reused = s1.c_len < base.c_len
     # 2 strip_forks
-    s2 = sim(dl=d_alone, strip_forks=True)
-    same(r0, res(s2), 'strip_forks on vs off (zero delay on fork inputs)')
-    stripped = len(s2.ops) < len(base.ops)
-    s2b = sim(dl=d_alone, strip_forks=True, c_reuse=True)
-    same(r0, res(s2b), 'strip_forks+c_reuse vs plain')
+    # known finding F28: with strongly polarity-dependent delays the kernel can emit a waveform whose timestamps are not increasing; a fork
+    # (evaluated as a buffer) then filters that pulse even with zero delay, a stripped fork cannot. Cases in which the plain run holds such a
+    # waveform on a line read by a fork are excluded from the strip_forks comparisons (counted), unless the case asks for them ('strict_strip').
+    f28 = False
+    for l in c.lines:
+        if l.reader.kind == '__fork__':
+            for lane in range(lanes):
+                ts = W.line_wave(base, l.index, lane)['times']
+                if any(ts[i] >= ts[i + 1] for i in range(len(ts) - 1)):
+                    f28 = True
+    sf = True
+    if f28 and not case.get('strict_strip'):
+        labels.append('excluded_known_F28')
+        sf = False
+    stripped = False
+    if sf:
+        s2 = sim(dl=d_alone, strip_forks=True)
+        same(r0, res(s2), 'strip_forks on vs off (zero delay on fork inputs)')
+        stripped = len(s2.ops) < len(base.ops)
+    s2b = sim(dl=d_alone, strip_forks=sf, c_reuse=True)
+    same(r0, res(s2b), 'strip_forks+c_reuse vs plain' if sf else 'c_reuse vs plain')
     # 3 cuda path
     s3 = sim(WaveSimCuda, dl=d_alone, act=actrl)
     same(r0, res(s3), 'WaveSimCuda vs WaveSim')
     if actrl is not None and not np.array_equal(np.array(s3.abuf), np.array(base.abuf)):
         raise Violation(f'WaveSimCuda abuf {np.array(s3.abuf).tolist()} != WaveSim abuf {np.array(base.abuf).tolist()}')
-    s3b = sim(WaveSimCuda, dl=d_alone, c_reuse=True, strip_forks=True)
-    same(r0, res(s3b), 'WaveSimCuda(c_reuse, strip_forks) vs WaveSim plain')
+    ow = [40 + 7 * case['seed'], 12, 90, 33 + case['pptime'], 5][:2 + case['seed'] % 4]      # mostly not increasing
+    same(res(sim(dl=d_alone, owave=ow)), res(sim(WaveSimCuda, dl=d_alone, owave=ow)), f'capture of a written waveform {ow}: WaveSim vs WaveSimCuda')
+    s3b = sim(WaveSimCuda, dl=d_alone, c_reuse=True, strip_forks=sf)
+    same(r0, res(s3b), f'WaveSimCuda(c_reuse, strip_forks={sf}) vs WaveSim plain')
     # 3b a simulator object that was used before with other stimuli behaves like a fresh one (both code paths, with memory reuse)
     if case.get('pre'):
         for klass in (WaveSim, WaveSimCuda):
             same(r0, res(sim(klass, dl=d_alone, pre=case['pre'])), f'{klass.__name__} used before vs fresh')
-        same(r0, res(sim(dl=d_alone, pre=case['pre'], c_reuse=True, strip_forks=True)), 'WaveSim(c_reuse, strip_forks) used before vs fresh')
+        same(r0, res(sim(dl=d_alone, pre=case['pre'], c_reuse=True, strip_forks=sf)), f'WaveSim(c_reuse, strip_forks={sf}) used before vs fresh')
     # 4 extra lanes
     wx = [case['waves'][k] + case['xwaves'][k] for k in range(len(case['waves']))]
     s4 = sim(waves=wx, dl=d_alone)
